@@ -92,7 +92,8 @@ def run(ctx):
     # every pair and small multiples on toy curves, the spec-computed points on the real curve
     def enc_of(basic, P):
         return hx(basic.encodepoint(P))
-    for g in (["ed37", "ed53"] if thorough else ["ed37"]):
+    have_u = hasattr(uni.basic["Ed25519"], "bytes_to_unknown_group_element")      # an internal helper: skip if it is gone
+    for g in ((["ed37", "ed53"] if thorough else ["ed37"]) if have_u else []):
         basic = uni.basic[g]
         allp = ["zero" if P == (0, 1) else enc_of(basic, P) for P in pure.toy_curve_points(basic)]
         for i, a in enumerate(allp):
@@ -109,7 +110,7 @@ def run(ctx):
             traces.append(t.to_json())
     encs = ["zero" if xy == (0, 1) else hx(basic_.encodepoint(xy)) for basic_ in [uni.basic["Ed25519"]] for n_, xy in P]
     t = Trace("Ed25519/unknown-group", uni)
-    for i, a in enumerate(encs[:18 if thorough else 12]):
+    for i, a in enumerate(encs[:18 if thorough else 12] if have_u else []):
         t.raw(pure.ev_u_op(uni, "Ed25519", "add", a, encs[(i * 5 + 1) % len(encs)]))
         t.raw(pure.ev_u_op(uni, "Ed25519", "mul", a, n=[8, L, 2, 8 * L][i % 4]))
         if i % 2 == 0 and a != "zero":
